@@ -28,6 +28,8 @@ var (
 	flagMutants  = flag.Bool("mutants", false, "run the mutant self-tests for -property (or all) and exit")
 )
 
+func flagArgs() []string { return flag.Args() }
+
 func main() {
 	flag.Parse()
 	// go/packages looks the go command up through the process PATH: pin the toolchain here so that the
